@@ -114,6 +114,10 @@ func genValCase(t *rapid.T) ValCase {
 	var v V
 	for try := 0; ; try++ {
 		v = genValue(t, rapid.IntRange(1, 3).Draw(t, "depth"))
+		if len(v.E) == 0 && v.K != "hash" && v.K != "vec" && rapid.IntRange(0, 4).Draw(t, "keepatom") > 0 {
+			// mostly containers at the top
+			v = V{K: []string{"list", "vec"}[rapid.IntRange(0, 1).Draw(t, "wrap")], E: []V{v, genValue(t, 2)}}
+		}
 		// a bare symbol printed by pp.Append is documented to print what the symbol names; nil has no methods
 		if v.K != "sym" && v.K != "nil" && !(v.K == "list" && len(v.E) == 0) {
 			break
@@ -138,6 +142,16 @@ func runValue(c ValCase) *h.Result {
 	text, fault := ppText(form, c.Margin)
 	if fault != "" {
 		return h.Fail("pp.Append of load form %s: %s", ev.Show(form), fault)
+	}
+	// (0) the same object gives the same text each time (a snapshot of an unchanged session is a fixed point)
+	for i := 0; i < 2; i++ {
+		o := ev.Try(func() slip.Object { return build(c.V).(slip.LoadFormer).LoadForm() })
+		if o.Kind != ev.Value {
+			return h.Fail("LoadForm of %s: %s", canon(c.V), o)
+		}
+		if text2, _ := ppText(o.Val, c.Margin); text2 != text {
+			return h.Fail("the load form of equal objects is printed differently\nfirst:  %s\nsecond: %s", text, text2)
+		}
 	}
 	// (1) the layout changes white space only
 	again, fault := readOne(text)
@@ -214,25 +228,48 @@ func progOpts() proggen.Opts {
 	return proggen.Opts{MaxDepth: 5, MarkOdds: 3, NoValuesInInit: true}
 }
 
+// tagDocRefill: open finding C19-F2, the doc layout passes a documentation string through the documentation formatter.
+const tagDocRefill = "doc-string-refilled"
+
+// docChanged is the class of documentation strings the formatter changes: emphasis marks (_), runs of blanks or a
+// newline, or longer than the 12 characters that fit every generated layout at margin 20 (indent 4 + quotes).
+func docChanged(d string) bool {
+	return len(d) > 12 || strings.ContainsAny(d, "_\n") || strings.Contains(d, "  ")
+}
+
 func genDoc(t *rapid.T) string {
-	// short and plain: the doc layout refills the text of longer ones (known finding C19-F1)
 	words := []string{"adds", "one", "two", "x", "sum", "of", "it"}
-	n := rapid.IntRange(1, 3).Draw(t, "docwords")
-	var parts []string
-	for i := 0; i < n; i++ {
-		parts = append(parts, words[rapid.IntRange(0, len(words)-1).Draw(t, "docword")])
+	plain := func(limit int) string {
+		n := rapid.IntRange(1, 3).Draw(t, "docwords")
+		var parts []string
+		for i := 0; i < n; i++ {
+			parts = append(parts, words[rapid.IntRange(0, len(words)-1).Draw(t, "docword")])
+		}
+		s := strings.Join(parts, " ")
+		if len(s) > limit {
+			s = s[:limit]
+		}
+		return strings.TrimSpace(s)
 	}
-	s := strings.Join(parts, " ")
-	if len(s) > 12 {
-		s = s[:12]
+	switch rapid.IntRange(0, 7).Draw(t, "dockind") {
+	case 0:
+		// characters that need an escape
+		return []string{"a \"q\" b", "b\\s", "\"", "it's (x)", "a;b #|c"}[rapid.IntRange(0, 4).Draw(t, "docesc")]
+	case 1:
+		d := []string{"adds _x_ to y", "two  blanks", "line one\nline two", "returns the sum of its two arguments, both of which must be numbers",
+			"a rather long documentation string that does not fit on a narrow line", "__bold__ words"}[rapid.IntRange(0, 5).Draw(t, "dochard")]
+		if docChanged(d) && excluded(tagDocRefill) {
+			return plain(12)
+		}
+		return d
 	}
-	return strings.TrimSpace(s)
+	return plain(12)
 }
 
 func genCodeCase(t *rapid.T) CodeCase {
 	c := CodeCase{Margin: rapid.IntRange(20, 120).Draw(t, "margin")}
 	g := proggen.New(t, progOpts(), "")
-	switch rapid.IntRange(0, 9).Draw(t, "codekind") {
+	switch rapid.IntRange(0, 10).Draw(t, "codekind") {
 	case 0, 1, 2:
 		c.Kind = "call"
 		c.Src = r.Print(g.Expr([]string{proggen.TInt, proggen.TList, proggen.TAny}[rapid.IntRange(0, 2).Draw(t, "typ")], nil, 1))
@@ -256,7 +293,7 @@ func genCodeCase(t *rapid.T) CodeCase {
 		for i := 0; i < n; i++ {
 			c.Args = append(c.Args, int64(rapid.IntRange(-2, 4).Draw(t, "arg")))
 		}
-	case 6, 7:
+	case 6:
 		c.Kind = "form"
 		c.Src = r.Print(g.Expr(proggen.TAny, nil, 0))
 	default:
@@ -421,6 +458,6 @@ func TestC19(t *testing.T) {
 
 	h.RunProp(t, valueProp, h.N(8000, 120000))
 	h.RunProp(t, codeProp, h.N(4000, 60000))
-	h.RunProp(t, defsProp, h.N(1500, 20000))
-	h.RunProp(t, snapProp, h.N(150, 1500))
+	h.RunProp(t, defsProp, h.N(1500, 12000))
+	h.RunProp(t, snapProp, h.N(150, 900))
 }
